@@ -15,8 +15,9 @@ from .runner import HarnessError, VERIF, SIM_DIR, REPO
 
 PROP = "C19"
 NCPU = min(16, os.cpu_count() or 4)
-EVIDENCE = os.path.join(VERIF, "evidence", f"{PROP}.json")
-REPLAYS = os.path.join(VERIF, "replays")
+# the two overrides exist for tools/run_seeded.py (mutation runs must not overwrite the real evidence)
+EVIDENCE = os.path.join(os.environ.get("VERIF_EVIDENCE_DIR") or os.path.join(VERIF, "evidence"), f"{PROP}.json")
+REPLAYS = os.environ.get("VERIF_REPLAY_DIR") or os.path.join(VERIF, "replays")
 KNOWN = os.path.join(VERIF, "known_findings.json")
 
 
@@ -96,7 +97,7 @@ def evaluate(job, res):
         rec["stderr"] = res.get("stderr", "")
         return rec
     run = runner.parse_log(res["log"])
-    want = (job["K"] + (1 if job["main"] else 0)) * job["D"] * (2 if job["types"] == "both" else 1) * len(job["sizes"])
+    want = runner.draws_of(job)
     if len(run["draws"]) + 0 != want and not run["joins"]:
         rec["status"] = "harness"
         rec["why"] = f"log has {len(run['draws'])} draw records, expected {want}"
@@ -190,6 +191,22 @@ def minimise(job, target, sim_dir, repo, budget=60):
 
     def transforms(c, v):
         out = []
+        if c.get("cycle"):
+            cyc = c["cycle"]
+            nthreads = c["K"] + (1 if c["main"] else 0)
+            if nthreads > 1:
+                out.append(("K=1", dict(c, K=1, main=0)))
+            for i in range(len(cyc)):
+                if len(cyc) > 1:
+                    nc = cyc[:i] + cyc[i + 1:]
+                    out.append((f"drop call {cyc[i][1]}{cyc[i][0]}", dict(c, cycle=nc, sizes=sorted(set(n for _, n in nc)))))
+            if c["yield"]:
+                out.append(("yield=0", dict(c, **{"yield": 0})))
+            if c["D"] > 2:
+                out.append((f"D={c['D'] // 2}", dict(c, D=c["D"] // 2)))
+            if c.get("extra_flags"):
+                out.append(("flags", dict(c, extra_flags=[])))
+            return out
         if v.get("n") is not None and c["sizes"] != [v["n"]]:
             out.append(("sizes", dict(c, sizes=[v["n"]])))
         if v.get("typ") in ("L", "S") and c["types"] == "both":
@@ -521,5 +538,8 @@ def main(argv):
     if argv and argv[0] == "selftest":
         from . import selftest
         return selftest.main(argv[1:], seed)
+    if len(argv) >= 2 and argv[0] == "trypatch":
+        from . import selftest
+        return selftest.trypatch(argv[1:], seed)
     log(__doc__ or "usage: ./check C19 quick|thorough | C19 --replay <file> | selftest | determinism [N]")
     return 2
